@@ -62,7 +62,8 @@ func c29Supplies(ups, cores, downs []*seg.PathSegment, triples bool) []c29Supply
 
 func TestC29(t *testing.T) {
 	r := mc.NewRun(t, "C29", mc.Exploration)
-	r.Rule = "topology family (netsim.CombFamily incl. multi-ISD members whose ISDs re-use the same AS numbers, real beaconing along all loop-free walks) x segment-set variants (one generation; two generations in " +
+	r.Rule = "topology family (netsim.CombFamily incl. multi-ISD members whose ISDs re-use the same AS numbers, a shape with every link kind doubled, and every member with parallel links renumbered so that the " +
+		"parallel links differ, at both ends, only in one high bit (8..15) resp. only in the low byte of the 16-bit interface number; real beaconing along all loop-free walks) x segment-set variants (one generation; two generations in " +
 		"both supply orders; newer generation expiring earlier through one AS; older generation lacking the last peering link; segments of all ASes " +
 		"supplied; detachable EPIC extension on all ASes / every second AS / each single AS / one of two generations; static-info + discovery extensions on all / every second AS, also together with EPIC) x all ordered AS pairs x supplied subsets (everything; without cores; every single up / single down / (up,down) pair with all, " +
 		"none and each single core segment) x findAllIdentical {false,true} x every join found by the clean-room enumerator; distinct key = " +
@@ -70,6 +71,10 @@ func TestC29(t *testing.T) {
 	thorough := mc.Thorough()
 	maxLen := mc.Pick(5, 6)
 	topos := netsim.CombFamily(mc.Pick(0, 1))
+	// interface-number dimension (c29x_ifids_test.go): a shape with every link kind doubled, and every member with
+	// parallel links renumbered so that the parallel links differ in one part of the 16-bit interface number only
+	nFamily := len(topos)
+	topos = append(topos, c29AliasTopos(topos, thorough)...)
 	var nSets, nCombine, nJoins, nLoops, nSeqs int64
 	bubble(t, func(t *testing.T) {
 	topoLoop:
@@ -77,6 +82,10 @@ func TestC29(t *testing.T) {
 			for _, v := range c28Variants(tp, thorough) {
 				// MTU-only perturbations do not change which joins exist
 				if !(strings.HasPrefix(v.Name, "base") || strings.HasPrefix(v.Name, "2gen") || strings.HasPrefix(v.Name, "epic") || strings.HasPrefix(v.Name, "ext")) {
+					continue
+				}
+				// renumbered members: one generation, two generations, EPIC (the joins are those of the base member)
+				if ti >= nFamily && strings.Contains(tp.Name, "/ifid-alias=") && !(v.Name == "base" || thorough && (v.Name == "2gen/old-first" || v.Name == "epic:all")) {
 					continue
 				}
 				if r.OutOfBudget() {
@@ -113,6 +122,7 @@ func TestC29(t *testing.T) {
 		}
 	})
 	r.Extra["topologies"] = len(topos)
+	r.Extra["topologies_with_aliased_interface_numbers"] = len(topos) - nFamily - 1
 	r.Extra["segment_sets"] = nSets
 	r.Extra["combine_calls"] = nCombine
 	r.Extra["joins_required"] = nJoins
